@@ -119,7 +119,7 @@ class FromDroplet(Contract):
         """call-site form for heap droplets (locate_droplets): allocate the converted droplet"""
         cls, src = args[0], args[1]
         if not (isinstance(cls, SClassRef) and isinstance(src, H.SRefObj)):
-            raise Undecided("from_droplet on local objects is inlined")
+            return NotImplemented          # local objects: the body is executed instead
         tgt = cls.cls.name
         h = H.heap_of(run)
         dim = src.layout["position"][1]
